@@ -126,6 +126,7 @@ type verifyOpts struct {
 
 // VerifyFunc generates all obligations of one function under contract.
 func VerifyFunc(P *Program, fn *ssa.Function, c *Contract, cf *ContractFile, inst string, vo verifyOpts) *FuncResult {
+	c = filterContractForInstance(c, inst)
 	e := newEngine(P, fn, c, cf)
 	e.declareGhosts()
 	e.knownActive = vo.knownActive
@@ -206,6 +207,9 @@ func VerifyFunc(P *Program, fn *ssa.Function, c *Contract, cf *ContractFile, ins
 	}
 	for _, lcf := range allCF {
 		for _, lm := range lcf.Lemmas {
+			if lm.KnownID != "" {
+				continue
+			}
 			if lcf != cf && !lm.Assumed {
 				continue
 			}
@@ -612,4 +616,32 @@ func LemmaObligation(P *Program, cf *ContractFile, lm *Lemma) (*Obligation, []st
 		}
 	}
 	return o, e.errs
+}
+
+// filterContractForInstance drops clauses tagged for another generic instance ("@int64 ensures ...").
+func filterContractForInstance(c *Contract, inst string) *Contract {
+	keep := func(cl *Clause) bool { return cl == nil || cl.Tag == "" || cl.Tag == inst }
+	n := *c
+	n.Requires, n.Ensures, n.Sites, n.Known = nil, nil, nil, nil
+	for _, x := range c.Requires {
+		if keep(x) {
+			n.Requires = append(n.Requires, x)
+		}
+	}
+	for _, x := range c.Ensures {
+		if keep(x) {
+			n.Ensures = append(n.Ensures, x)
+		}
+	}
+	for _, x := range c.Sites {
+		if keep(x.Clause) {
+			n.Sites = append(n.Sites, x)
+		}
+	}
+	for _, x := range c.Known {
+		if keep(x.Class) {
+			n.Known = append(n.Known, x)
+		}
+	}
+	return &n
 }
